@@ -73,3 +73,24 @@ Definition sink_K (s : unit) (_ : BinaryDetect.event) : unit * bool := (s, true)
 (* reply function: Continue before call k, Stop at and after it *)
 Definition stop_at (k : nat) (i : nat) : SearcherCore.reply :=
   if Nat.ltb i k then SearcherCore.Continue else SearcherCore.Stop.
+
+(* the detection mode of the Core model's Config in the vocabulary of the C14 model *)
+Definition mode14 (m : SearcherCore.bin_mode) : LineBufferBin.bin_mode :=
+  match m with
+  | SearcherCore.BNone => LineBufferBin.BNone
+  | SearcherCore.BQuit b => LineBufferBin.BQuit b
+  | SearcherCore.BConvert b => LineBufferBin.BConvert b
+  end.
+
+(* a reply function of the Core model (indexed by the number of earlier sink calls) as a sink of the C14 model:
+   the state is the number of calls seen; "keep going" = the reply is Continue *)
+Definition sink_of (r : nat -> SearcherCore.reply) (n : nat) (_ : BinaryDetect.event) : nat * bool :=
+  (S n, match r n with SearcherCore.Continue => true | _ => false end).
+
+(* the plan when the matcher's lines are / are not searched by the fast path (under inversion the positions
+   differ: c_pos) *)
+Definition core_plan_on (fast : bool) (cfg : SearcherCore.config) (is_match : bytes -> bool) (buf : bytes) : list call :=
+  fst (plan_calls
+         (fun line => negb (Bool.eqb (is_match (without_terminator (c_lt cfg) line)) (c_invert cfg)))
+         (fast && c_invert cfg) (c_passthru cfg) (length buf)
+         (line_ranges (lt_byte (c_lt cfg)) buf 0 0 [])).
